@@ -141,6 +141,13 @@ def build():
     fn(raw, "RawTableInner::reserve_rehash_inner", "reserve_rehash_resize_target", extract=("callarg", ("resize_inner", 1)))
     raw.self_name = "RawIterRange"
     fn(raw, "RawIterRange::split", "split_mid", extract=("let", "mid"))
+    # structural fact: in rehash_in_place's unwind guard, does the loop that resets DELETED
+    # bytes run regardless of `drop` (for-loop outside `if let Some(drop) = drop`)?
+    try:
+        cur.append(rs2v.rehash_guard_fact(raw))
+    except Exception as ex:
+        errors.append(("rehash_guard_unconditional", str(ex)))
+        cur.append(("rehash_guard_unconditional", str(ex)))
     raw.self_name = "RawTable"
     fn(raw, "RawTable::capacity", "raw_capacity")
 
